@@ -1,7 +1,7 @@
 /-
-  XotModel.Lemmas.ScopeDedup — the removal phase of `deduplicate_namespaces` only deletes
-  namespace-node children: whatever the fix-up list is, the result relates to the input by
-  `NsShrink` (same non-namespace skeleton, per node a sublist of the declarations).
+  XotModel.Lemmas.ScopeDedup — the removal phase of every pass of `deduplicate_namespaces` only
+  deletes namespace-node children: whatever the removal lists are, the result relates to the input
+  by `NsShrink` (same non-namespace skeleton, per node a sublist of the declarations).
 -/
 import XotModel.Model.Scope
 
@@ -228,7 +228,26 @@ theorem NsShrink.applyFixups (fps : List (Path × List Nat)) :
     simp only [XotModel.applyFixups, List.foldl_cons]
     exact (ih _).trans (NsShrink.removeNamespacesAt fp.1 fp.2 t)
 
-/-- Whatever the traversal decided, `deduplicate_namespaces` only deletes namespace nodes. -/
+/-- One pass only deletes namespace nodes, whatever the traversal decided. -/
+theorem NsShrink.dedupPass (env : Env) (t : Tree) (path : Path) (sub : Tree) :
+    NsShrink (dedupPass env t path sub).1 t :=
+  NsShrink.applyFixups _ t
+
+/-- ... and so does any number of passes. -/
+theorem NsShrink.dedupLoop (env : Env) (path : Path) : ∀ (fuel : Nat) (t : Tree),
+    NsShrink (dedupLoop env path fuel t) t
+  | 0, t => NsShrink.refl t
+  | fuel + 1, t => by
+    unfold XotModel.dedupLoop
+    split
+    · exact NsShrink.refl t
+    · rename_i sub _
+      dsimp only
+      split
+      · exact (NsShrink.dedupLoop env path fuel _).trans (NsShrink.dedupPass env t path sub)
+      · exact NsShrink.dedupPass env t path sub
+
+/-- Whatever the traversals decided, `deduplicate_namespaces` only deletes namespace nodes. -/
 theorem NsShrink.deduplicateNamespaces (env : Env) (t t' : Tree) (path : Path)
     (h : deduplicateNamespaces env t path = some t') : NsShrink t' t := by
   unfold XotModel.deduplicateNamespaces at h
@@ -236,6 +255,6 @@ theorem NsShrink.deduplicateNamespaces (env : Env) (t t' : Tree) (path : Path)
   · cases h
   · simp only [Option.some.injEq] at h
     subst h
-    exact NsShrink.applyFixups _ t
+    exact NsShrink.dedupLoop env path _ t
 
 end XotModel
